@@ -53,6 +53,8 @@ def gen(rng, n, ncalls_max, cancels=False, behaviours=True, keys=3, retention=No
                     cs['cancel_at'] = t + rng.choice([0.0, 0.5, 1.0, bt - 1.0, bt, bt + 0.5, bt + 1.0, bt + 2.5, 2 * bt])
                 else:
                     cs['tmo'] = rng.choice([0.0, 0.5, 1.0, bt, bt + 0.5, bt + 2.5])
+            if not cancels and rng.random() < 0.12:
+                cs['chain'] = rng.choice([1, 1, 2])     # retry immediately after the answer
             calls.append(cs)
         sc = {'form': rng.choice(['class', 'class', 'deco_direct', 'deco_options']), 'opts': opts, 'calls': calls}
         if durations:
@@ -72,10 +74,35 @@ def gen(rng, n, ncalls_max, cancels=False, behaviours=True, keys=3, retention=No
             sc['behav'] = behav
             if rng.random() < 0.2:
                 sc['raise_at'] = [rng.randint(1, 3), rng.randint(0, 2)]
-        if setmax and sc['form'] == 'class' and rng.random() < 0.5:
-            sc['setmax'] = [{'at': rng.choice([c['at'] for c in calls]) + rng.choice([0.0, 0.5, 1.0]),
-                             'n': rng.choice([1, 2, 3, 5])}]
+        if setmax:
+            sc['form'] = 'class'
+            if rng.random() < 0.7:
+                sc['setmax'] = [{'at': rng.choice([c['at'] for c in calls]) + rng.choice([0.0, 0.5, 1.0]),
+                                 'n': rng.choice([1, 2, 2, 3, 5])}]
         sc['end'] = end_time(calls, opts, sc)
+        out.append(sc)
+    return out
+
+
+def queue_pressure(rng, n):
+    """Many simultaneous calls against a tiny, slow batcher; one of the queued callers is cancelled; later
+    the same key is requested again (C09: the batcher keeps serving)."""
+    out = []
+    for _ in range(n):
+        bt = BT
+        opts = {'max_batch_size': 1, 'max_concurrent_batches': rng.choice([1, 1, 2]), 'batch_timeout': bt,
+                'retention_timeout': rng.choice([0.0, 0.0, 2.0])}
+        k = rng.randint(3, 6)
+        calls = [{'i': i + 1, 'at': 0.0, 'arg': i + 1} for i in range(k)]
+        victim = rng.randint(2, k)
+        calls[victim - 1]['cancel_at'] = rng.choice([0.0, 0.5, 1.0, 2.0])
+        if rng.random() < 0.4:
+            v2 = rng.randint(1, k)
+            calls[v2 - 1]['tmo'] = rng.choice([0.5, 1.0, 3.0])
+        calls.append({'i': k + 1, 'at': rng.choice([1.0, 3.0, 3 * bt * k]), 'arg': victim})
+        calls.append({'i': k + 2, 'at': 3 * bt * k + 5.0, 'arg': victim})
+        sc = {'form': 'class', 'opts': opts, 'calls': calls, 'batch_dur': rng.choice([2 * bt, 3 * bt]), 'order': 'fwd'}
+        sc['end'] = end_time(calls, opts, sc) + 20
         out.append(sc)
     return out
 
@@ -151,10 +178,17 @@ def run(ctx):
     elif ctx.prop == 'C09':
         go(gen(rng, 3000 if q else 50000, 6 if q else 8, cancels=True), 'programs_with_cancels')
         go(gen(rng, 800 if q else 10000, 5, cancels=True, behaviours=False, keys=2), 'cancels_shared_keys')
+        go(queue_pressure(rng, 400 if q else 6000), 'queue_pressure')
     elif ctx.prop == 'C10':
         go(c10_grid(ctx.tier), 'arrival_grid')
         go(gen(rng, 1500 if q else 30000, 8 if q else 12, behaviours=False, keys=12, setmax=True,
                explicit_keys=False), 'programs_setmax')
+        fails = gen(rng, 800 if q else 12000, 8, behaviours=False, keys=12, explicit_keys=False)
+        for sc in fails:     # batches that raise must give their slot back, and only theirs
+            sc['raise_at'] = [rng.randint(1, 2), rng.randint(0, 1)]
+            sc['batch_dur'] = rng.choice([2.0, BT, 2 * BT])
+            sc['end'] = end_time(sc['calls'], sc['opts'], sc)
+        go(fails, 'raising_batches')
     else:
         go(c11_grid(ctx.tier), 'retention_grid')
         go(gen(rng, 1500 if q else 30000, 7 if q else 10, behaviours=False, keys=3), 'programs')
